@@ -137,6 +137,7 @@ impl Topic {
     { unimplemented!() }
     #[verifier::external_body]
     pub fn persist(&self) -> (r: Result<(), IggyError>) ensures r is Ok { unimplemented!() }
+    // LINKED: units/catalogue_more/lemmas.rs, harness [C06.link.alloc_runtime.topic_delete] (mirror edits there)
     #[verifier::external_body]
     pub fn delete(&self) -> (r: Result<(), IggyError>) ensures r is Ok { unimplemented!() }
 }
@@ -183,19 +184,30 @@ impl Metrics {
 }
 impl System {
     // repair F70: disconnects the clients of the user (units client_disconnect / user_disconnect); writes the client manager only
+    // LINKED: units/user_disconnect/lemmas.rs, harness [C06.link.alloc_runtime.system_delete_clients_for_user] (mirror edits there).
+    // The `requires` was added by the link: the real function is proved (no panic, frame) only under the representation invariant of the
+    // client table — the stub had no precondition.
     #[verifier::external_body]
     pub fn delete_clients_for_user(&mut self, user_id: u32)
+        requires cm_inv(&old(self).client_manager),
         ensures *final(self) == (System { client_manager: final(self).client_manager, ..*old(self) }),
     { unimplemented!() }
 }
 // the client manager is verified in unit client_memberships; opaque here
 #[verifier::external_body]
 pub struct ClientManager { x: u8 }
+// representation invariant of the client table, opaque here (added by link pass 2). The proving units interpret it as
+// cm_keys_wf && members_wf && cm_ids_nonzero of vx/prelude/disconnect.rs: every client is filed under its own session's id, holds each
+// membership at most once, and recorded membership ids are never 0 — the preconditions of the real System::delete_clients_for_user
+// (unit user_disconnect) and ClientManager::delete_clients_for_user (unit client_memberships).
+pub uninterp spec fn cm_inv(cm: &ClientManager) -> bool;
 impl ClientManager {
     #[verifier::external_body]
     pub fn delete_consumer_groups_for_stream(&mut self, stream_id: u32) { unimplemented!() }
+    // LINKED: units/client_memberships/lemmas.rs, harness [C06.link.alloc_runtime.delete_clients_for_user] (mirror edits there). The
+    // `requires` was added by the link (the real function is proved under keys_wf). Called by System::delete_user only on a tree WITHOUT the repair F70.
     #[verifier::external_body]
-    pub fn delete_clients_for_user(&mut self, user_id: u32) -> (r: Result<(), IggyError>) ensures r is Ok { unimplemented!() }
+    pub fn delete_clients_for_user(&mut self, user_id: u32) -> (r: Result<(), IggyError>) requires cm_inv(old(self)), ensures r is Ok { unimplemented!() }
 }
 
 // ---- abstract view: which ids are taken ---------------------------------------------------------------------
@@ -253,6 +265,7 @@ impl Stream {
     { unimplemented!() }
     #[verifier::external_body]
     pub fn persist(&self) -> (r: Result<(), IggyError>) ensures r is Ok { unimplemented!() }
+    // LINKED: units/catalogue_more/lemmas.rs, harness [C06.link.alloc_runtime.stream_delete] (mirror edits there)
     #[verifier::external_body]
     pub fn delete(&self) -> (r: Result<(), IggyError>) ensures r is Ok { unimplemented!() }
     #[verifier::external_body]
@@ -271,15 +284,27 @@ impl Stream {
 pub struct StateKind { x: u8 }
 impl StateKind {
     pub uninterp spec fn log(&self) -> Seq<EntryCommand>;
+    // LINKED (relational reading, not verbatim): units/journal/lemmas.rs, harness [C05.link.alloc_runtime.apply] proves both clauses from the real
+    // FileState::apply with `log()` read as "a ghost sequence the journal file DENOTES" (valid journal whose entries carry, in order, the
+    // journal forms `cmd_bytes` of the logged commands): Ok => the new file denotes log.push(..); Err => it denotes log or log.push(..)
+    // OR - a case this stub does not list - the write was torn and the file is no journal any more (the loader refuses it at the next
+    // start). The real function's preconditions are NOT carried here: the journal invariant `jwf` (broken by a failed apply: F16),
+    // `command.payload_fits()` (payload below 4 GiB) and unit journal's scope `encryptor is None`. The VALUE-level equation on `log()` as a
+    // function needs `cmd_bytes` injective = the round trip of unit journal_cmd ([C13.journal.cmd.rt]): still stated, not linked.
     #[verifier::external_body]
     pub fn apply(&mut self, user_id: u32, command: EntryCommand) -> (r: Result<(), IggyError>)
         ensures r is Ok ==> final(self).log() == old(self).log().push(command),
-            r is Err ==> final(self).log() == old(self).log(),
+            // WEAKENED by link pass 2 (was: `r is Err ==> final(self).log() == old(self).log()`): the real FileState::apply returns Err
+            // also AFTER the entry reached the file (FileWithSyncPersister::append: write_all Ok, then sync_all fails -> CannotSyncFile,
+            // server/src/streaming/persistence/persister.rs), so a failed apply may or may not have written the entry - the form units
+            // journal_sinks / credentials already use
+            r is Err ==> (final(self).log() == old(self).log() || final(self).log() == old(self).log().push(command)),
     { unimplemented!() }
 }
 
 // --- users: construction and lookup are other subsystems ---
 impl User {
+    // LINKED: units/credentials/lemmas.rs, harness [C10.link.alloc_runtime.User_new] (mirror edits there)
     #[verifier::external_body]
     pub fn new(id: u32, username: &Name, password: &Name, status: UserStatus, permissions: Option<Permissions>) -> (r: User)
         ensures r.id == id && r.username == *username,
@@ -288,6 +313,7 @@ impl User {
 impl System {
     // System::get_user / try_get_user (systems/users.rs): numeric identifiers are looked up by key, names by a scan over the
     // usernames. Stub: the lookup is unit catalogue's matter; assumed to return an entry of the map (by key when numeric).
+    // LINKED: units/credentials/lemmas.rs, harness [C10.link.alloc_runtime.get_user], proves this contract from the real function (mirror edits there)
     #[verifier::external_body]
     pub fn get_user(&self, user_id: &Identifier) -> (r: Result<&User, IggyError>)
         ensures
